@@ -22,24 +22,25 @@ struct Traits : tlx::btree_default_traits<K, V> {
     static const int inner_slots = IS;
     static const size_t binsearch_threshold = BIN ? 0 : 1 << 20;
 };
+typedef unsigned char KEY;     // 8-bit keys keep the solver's order reasoning small; the tree code is generic in the key type
 #if GREATER
-typedef std::greater<int> Cmp;
+typedef std::greater<KEY> Cmp;
 #else
-typedef std::less<int> Cmp;
+typedef std::less<KEY> Cmp;
 #endif
 #if MAP
 #if MULTI
-typedef tlx::btree_multimap<int, int, Cmp, Traits<int, std::pair<int, int> > > BT;
+typedef tlx::btree_multimap<KEY, int, Cmp, Traits<KEY, std::pair<KEY, int> > > BT;
 #else
-typedef tlx::btree_map<int, int, Cmp, Traits<int, std::pair<int, int> > > BT;
+typedef tlx::btree_map<KEY, int, Cmp, Traits<KEY, std::pair<KEY, int> > > BT;
 #endif
 #define VAL(k, v) BT::value_type(k, v)
 #define KEYOF(x) ((x).first)
 #else
 #if MULTI
-typedef tlx::btree_multiset<int, Cmp, Traits<int, int> > BT;
+typedef tlx::btree_multiset<KEY, Cmp, Traits<KEY, KEY> > BT;
 #else
-typedef tlx::btree_set<int, Cmp, Traits<int, int> > BT;
+typedef tlx::btree_set<KEY, Cmp, Traits<KEY, KEY> > BT;
 #endif
 #define VAL(k, v) (k)
 #define KEYOF(x) (x)
@@ -51,17 +52,17 @@ void w_bt_ctor(BT* t) { new (t) BT(); }
 void w_bt_dtor(BT* t) { t->~BT(); }
 void w_bt_clear(BT* t) { t->clear(); }
 #if MULTI
-bool w_bt_insert(BT* t, int k, int v, Pos* at) { BT::iterator it = t->insert(VAL(k, v)); *at = pos_of(it); return true; }
+bool w_bt_insert(BT* t, KEY k, int v, Pos* at) { BT::iterator it = t->insert(VAL(k, v)); *at = pos_of(it); return true; }
 #else
-bool w_bt_insert(BT* t, int k, int v, Pos* at) { std::pair<BT::iterator, bool> r = t->insert(VAL(k, v)); *at = pos_of(r.first); return r.second; }
+bool w_bt_insert(BT* t, KEY k, int v, Pos* at) { std::pair<BT::iterator, bool> r = t->insert(VAL(k, v)); *at = pos_of(r.first); return r.second; }
 #endif
-bool w_bt_erase_one(BT* t, int k) { return t->erase_one(k); }
-size_t w_bt_erase(BT* t, int k) { return t->erase(k); }
-bool w_bt_exists(const BT* t, int k) { return t->exists(k); }
-size_t w_bt_count(const BT* t, int k) { return t->count(k); }
-void w_bt_find(const BT* t, int k, Pos* at) { *at = pos_of(t->find(k)); }
-void w_bt_lower_bound(const BT* t, int k, Pos* at) { *at = pos_of(t->lower_bound(k)); }
-void w_bt_upper_bound(const BT* t, int k, Pos* at) { *at = pos_of(t->upper_bound(k)); }
+bool w_bt_erase_one(BT* t, KEY k) { return t->erase_one(k); }
+size_t w_bt_erase(BT* t, KEY k) { return t->erase(k); }
+bool w_bt_exists(const BT* t, KEY k) { return t->exists(k); }
+size_t w_bt_count(const BT* t, KEY k) { return t->count(k); }
+void w_bt_find(const BT* t, KEY k, Pos* at) { *at = pos_of(t->find(k)); }
+void w_bt_lower_bound(const BT* t, KEY k, Pos* at) { *at = pos_of(t->lower_bound(k)); }
+void w_bt_upper_bound(const BT* t, KEY k, Pos* at) { *at = pos_of(t->upper_bound(k)); }
 void w_bt_begin(const BT* t, Pos* at) { *at = pos_of(t->begin()); }
 void w_bt_end(const BT* t, Pos* at) { *at = pos_of(t->end()); }
 size_t w_bt_size(const BT* t) { return t->size(); }
